@@ -1,6 +1,7 @@
 mod ctx;
 mod framework;
 mod hooks;
+mod l2;
 mod panics;
 mod rng;
 mod scenarios;
